@@ -59,6 +59,13 @@ def plan(tier):
         p.append((r_scn, 0 if q else 1, 0.3))
     p.append((S.G1(), 0 if q else 1, 3))
     p.append((S.G2(), 0 if q else 1, 3))
+    # COMPLETE enumeration (no deviation bound): every duration / outcome / tie-order sequence of small graphs
+    p.append((S.T1(shared=S.VM1_CHAIN[:2]).variant("/shared=install+customize,ALL-SCHEDULES"), 99, 0.5))
+    p.append((S.T1("net1 net2 net3", shared=S.VM1_CHAIN[:2]).variant("/shared=install+customize,ALL-SCHEDULES"), 99, 0.5))
+    p.append((S.T1(shared=S.VM1_CHAIN[:1]).variant("/shared=install,ALL-SCHEDULES"), 99, 1))
+    p.append((S.T2(shared=S.VM1_CHAIN[:2]).variant("/shared=install+customize,ALL-SCHEDULES"), 99, 1))
+    if not q:
+        p.append((S.T2(shared=S.VM1_CHAIN[:1]).variant("/shared=install,ALL-SCHEDULES"), 99, 4))
     return p
 
 
@@ -68,7 +75,7 @@ def matcher(known, v):
 
 
 def run(tier, seed):
-    return checkbase.run_e1("C01", tier, seed, TECH, (lambda: plan(tier)), monitors.c01, 240, 1800,
+    return checkbase.run_e1("C01", tier, seed, TECH, (lambda: plan(tier)), monitors.c01, 420, 2400,
                             "executions = complete runs of the real traversal, one per choice sequence (durations, PASS/FAIL outcomes = placement of failing tests, "
                             "tie order) with at most k non-default choices, from each enumerated initial population of the shared and own pools; "
                             "distinct = distinct (scenario incl. initial pools, (worker,test,status) sequence)",
